@@ -145,6 +145,33 @@ def check(ctx, rep):
         if not ok_any:
             problems.append("prepare() never merges/sorts")
     rep.add("R08b", "final order = entrycmp after the merge", not problems, ctx.where(prep) if prep else "", "; ".join(sorted(set(problems))), key="R08b|sort")
+    # whenever the listing is generated (no cache hit), link files are merged and the result sorted - whatever the directory contains
+    if prep is not None:
+        from ..paths import FALSY as FALSY_
+        problems = []
+
+        def cv(call, target, st):
+            if isinstance(call.func, ast.Attribute) and call.func.attr == "loadcache":
+                return FALSY_
+            return None
+
+        w = Walker(prog, ctx.resolver, call_value=cv, inline=lambda fn, t, d: d < 2 and fn.name == "prepare" and fn is not prep)
+        n_paths = 0
+        for p in w.run(prep, umn):
+            if p.kind == "raise":
+                continue
+            n_paths += 1
+            merged = any(e.kind == "call" and e.target.kind == "repo" and any(f.name == "MergeLinkFiles" for f in e.target.funcs) for e in p.events)
+            sorted_ = any((e.kind == "call" and isinstance(e.node.func, ast.Attribute) and e.node.func.attr == "sort" and norm(e.node.func.value) == "self.fileentries")
+                          or (e.kind == "assign" and e.target == "self.fileentries" and isinstance(e.node, ast.Assign) and "sorted(" in norm(e.node.value))
+                          for e in p.events)
+            if not (merged and sorted_):
+                tests = [norm(e.node)[:40] for e in p.events if e.kind == "test"][-2:]
+                problems.append(f"a path that generates the listing (no cache hit) returns without {'merging the link files' if not merged else 'sorting'}"
+                                + (f" [after {tests}]" if tests else "") + ": the blocks of .Links/.names files are dropped for such a directory")
+        if not n_paths:
+            problems.append("no path through prepare() on a cache miss")
+        rep.add("R08b", "every generated listing is merged and sorted", not problems, ctx.where(prep), "; ".join(sorted(set(problems))[:2]), key="R08b|always")
     merge_obligations(ctx, rep, umn)
     linkfile_text_obligations(ctx, rep, umn, "R08g")
 
